@@ -313,8 +313,13 @@ def rule_stdout_branch(rep: Report, repo: Repo, rule: str) -> None:
         for c in calls_in(fn):
             if call_name(c) in ("logger.info", "logging.info"):
                 gs = guards_of(fn, c, m.parents)
-                from .fsrules import is_out_guard, DocumentModel
-                aliases = {"output_path"}
+                from .fsrules import is_out_guard, is_output_dir_expr
+                aliases = set()
+                for n_ in walk_no_nested(fn):
+                    if isinstance(n_, ast.Assign) and len(n_.targets) == 1 and isinstance(n_.targets[0], ast.Name) and is_output_dir_expr(n_.value):
+                        aliases.add(n_.targets[0].id)
+                    if isinstance(n_, ast.AnnAssign) and n_.value is not None and isinstance(n_.target, ast.Name) and is_output_dir_expr(n_.value):
+                        aliases.add(n_.target.id)
                 ok = any(is_out_guard(g.test, g.polarity, aliases) for g in gs)
                 rep.check(ok, rule, f"{MOD}:{q}", norm(c)[:60],
                           "info-level log call reachable in stdout mode: with the default logging configuration the line is "
